@@ -75,6 +75,7 @@ def inflate_table_rules(ck, P):
 def run(ck):
     P = prog("K1")
     ck.configs.add("K1")
+    extra_leave_rule(ck, P)
     from .. import linear as _lin
     ck.floor("SIB/same-terms-same-threshold", _lin.same_threshold(ck, P, [f for f in sorted(P.fns.values(), key=lambda f: f.path) if f.path.startswith(Z + "inflate::")]), 1)
     ck.floor("PAIR/second-level-bits", _lin.second_level_bits(ck, P, [f for f in sorted(P.fns.values(), key=lambda f: f.path) if f.path.startswith(Z + "inflate::")]), 3)
@@ -111,3 +112,32 @@ def run(ck):
 # session 5 (round 9, D24)
 EXPLANATION = EXPLANATION + " " + (
     'SIB/same-terms-same-threshold: ordering decisions of the decoder over the same linear combination of state fields and working locals (`have + copy > nlen + ndist` in every repeat arm of dispatch and back) decide at one threshold, whatever the arrangement of the terms. PAIR/second-level-bits: the bit count of every saved first-level table entry is part of the exit test of its second-level fetch loop.')
+
+
+def extra_leave_rule(ck, P, R="ATOM/extra-leave"):
+    """gzip FEXTRA: `if (state->length) goto inf_leave` - the Extra arm gives up the call only while bytes of the field are still
+    missing.  An extra field of length 0 (valid per RFC 1952) and a field that ends exactly at the end of the input both
+    continue with the next header part.  Every leave of the Extra arm is decided by `length != 0` on its own."""
+    from .. import sig as _sig, decoders as _dec
+    from ..core import where
+    d = P.fn(_dec.DISPATCH)
+    if not ck.anchor("fn dispatch", d):
+        return
+    regs = _dec.mode_regions(d, 20) or {}
+    if not ck.anchor("arm Extra of dispatch", "Extra" in regs):
+        return
+    ck.use_fn(d)
+    n = 0
+    for c in d.live_calls(r"State::inflate_leave$"):
+        if c.bb not in regs["Extra"]:
+            continue
+        n += 1
+        ok = False
+        for a in d.dominating_atoms(c.bb):
+            s = _sig.sig(a, d)
+            if set(s.names) == {"length"} and not s.calls and 0 in s.consts and s.rel in ("Ne", "Lt", "Le"):
+                ok = True
+        ck.decide(ok, R, "dispatch:Extra:leave#%d" % n, "left only while length != 0",
+                  "the Extra arm of dispatch can leave the call on a condition other than `length != 0` (bytes of the field still "
+                  "missing): a gzip member whose extra field has length 0, or ends with the input, is never decoded", where(d, c.line))
+    ck.floor(R, n, 1)
